@@ -290,6 +290,7 @@ private:
         while (!has_pending_events_for_caching_when_transit_event_buffer_empty() &&
                _process_lowest_timestamp_transit_event())
         {
+          QUILL_VERIF_YIELD(4);
           // We need to be cautious because there are log messages in the lock-free queues
           // that have not yet been cached in the transit event buffer. Logging only the cached
           // messages can result in out-of-order log entries, as messages with larger timestamps
@@ -300,6 +301,8 @@ private:
     else
     {
       // No cached transit events to process, minimal thread workload.
+
+      QUILL_VERIF_YIELD(5);
 
       // force flush all remaining messages
       _flush_and_run_active_sinks(true, _options.sink_min_flush_interval);
@@ -408,6 +411,7 @@ private:
         while (!has_pending_events_for_caching_when_transit_event_buffer_empty() &&
                _process_lowest_timestamp_transit_event())
         {
+          QUILL_VERIF_YIELD(4);
           // We need to be cautious because there are log messages in the lock-free queues
           // that have not yet been cached in the transit event buffer. Logging only the cached
           // messages can result in out-of-order log entries, as messages with larger timestamps
@@ -430,6 +434,8 @@ private:
                                 .count())
       : std::numeric_limits<uint64_t>::max();
 
+    QUILL_VERIF_YIELD(1);
+
     // load all contexts locally. This must happen after ts_now is taken: a context that registers
     // after this point can only hold statements newer than ts_now, so skipping it in this pass
     // cannot reorder the output
@@ -440,6 +446,8 @@ private:
     for (ThreadContext* thread_context : _active_thread_contexts_cache)
     {
       assert(thread_context->has_unbounded_queue_type() || thread_context->has_bounded_queue_type());
+
+      QUILL_VERIF_YIELD(2);
 
       if (thread_context->has_unbounded_queue_type())
       {
@@ -504,6 +512,7 @@ private:
       auto const bytes_read = static_cast<size_t>(read_pos - read_begin);
       frontend_queue.finish_read(bytes_read);
       total_bytes_read += bytes_read;
+      QUILL_VERIF_YIELD(3);
       // Reads a maximum of one full frontend queue or the transit events' hard limit to prevent
       // getting stuck on the same producer.
     } while ((total_bytes_read < queue_capacity) &&
